@@ -451,7 +451,8 @@ class NPGetText(BaseTranslateFilter, TranslatableFilter):
 
 
 def _count(val: Any) -> int | None:
-    if val in (None, False, True):
+    # Careful, 0 == False and 1 == True.
+    if val is None or isinstance(val, bool):
         return None
     try:
         return int(val)
